@@ -95,6 +95,36 @@ Theorem det_inv_coverage :
   (forall m, gen_detR 1 m = leibniz 1 m /\ gen_detR 2 m = leibniz 2 m /\ gen_detR 3 m = leibniz 3 m).
 Proof. split; [reflexivity|]. split; [reflexivity|]. intros m. exact (det_formula m). Qed.
 
+(* ---------------- homogeneity: a change of length unit scales Det by s^n and Inv by 1/s ---------
+   (so nothing in the closed forms may depend on the absolute magnitude of the entries; the
+   correspondence runs every Det / Inv case again with the matrices times 2^e, e in -60..40) *)
+Definition scaled (s : R) (m : nat -> nat -> R) : nat -> nat -> R := fun i j => (s * m i j)%R.
+
+Theorem det_homogeneous (s : R) (m : nat -> nat -> R) :
+  gen_det1R (scaled s m) = (s * gen_det1R m)%R /\
+  gen_det2R (scaled s m) = (s * s * gen_det2R m)%R /\
+  gen_det3R (scaled s m) = (s * s * s * gen_det3R m)%R.
+Proof. repeat split; unfold gen_det1R, gen_det2R, gen_det3R, scaled; cbn; ring. Qed.
+
+Theorem inv_homogeneous_2 (s : R) (m : nat -> nat -> R) : s <> 0%R -> gen_det2R m <> 0%R ->
+  forall i j, i < 2 -> j < 2 -> gen_inv2R (scaled s m) i j = (gen_inv2R m i j / s)%R.
+Proof.
+  intros Hs H i j Hi Hj. destruct (det_homogeneous s m) as [_ [D2 _]].
+  destruct i as [|[|i]]; try lia; destruct j as [|[|j]]; try lia;
+    unfold gen_inv2R; cbv beta iota zeta; rewrite D2; unfold scaled;
+    set (D := gen_det2R m) in *; field; split; assumption.
+Qed.
+
+Theorem inv_homogeneous_3 (s : R) (m : nat -> nat -> R) : s <> 0%R -> gen_det3R m <> 0%R ->
+  forall i j, i < 3 -> j < 3 -> gen_inv3R (scaled s m) i j = (gen_inv3R m i j / s)%R.
+Proof.
+  intros Hs H i j Hi Hj. destruct (det_homogeneous s m) as [_ [_ D3]].
+  destruct i as [|[|[|i]]]; try lia; destruct j as [|[|[|j]]]; try lia;
+    unfold gen_inv3R; cbv beta iota zeta; rewrite D3; unfold scaled;
+    set (D := gen_det3R m) in *; field; split; assumption.
+Qed.
+Print Assumptions inv_homogeneous_3.
+
 (* ---------------- _KeepsFeAxes ---------------- *)
 Theorem gen_keeps_axis_is_model a nd : gen_keeps_axis a nd = keeps_axis a nd.
 Proof. unfold gen_keeps_axis, keeps_axis. destruct (a >=? 0)%Z; reflexivity. Qed.
